@@ -7,8 +7,10 @@ that `Theme.from_file` exercises: `read_file(f)` followed by `items("styles")`, 
 
 `configparser` is not part of Rich: this model is an *assumption about the runtime* that is validated by
 the correspondence run on every generated config text.  It never defaults: inputs it does not cover
-(indented lines = continuation lines, sections other than `[styles]`, `%(name)s` references,
-non-ASCII option names while lower-casing is on) answer `unmodelled`.
+(`%(name)s` references while interpolation is on, non-ASCII option names while lower-casing is on)
+answer `unmodelled`.  Covered: comments, empty lines inside values, indented continuation lines,
+any number of sections, `[DEFAULT]` inheritance into `[styles]`, duplicate sections / options,
+lines without delimiter, empty option names.
 
 Two variant flags select the behaviour of `Theme.from_file`'s parser:
 * `lower  = true`  : `optionxform = str.lower` (the code as found);  `false`: `optionxform = str`;
@@ -61,13 +63,22 @@ inductive Res (α : Type) where
   | unmodelled
 deriving Repr, BEq, DecidableEq
 
-/-- Reader state: has `[styles]` been seen, its options in file order, and whether a non-fatal
-`ParsingError` is pending (raised at the end of `_read`). -/
+/-- value lines of one option (joined with `\n` and right-stripped at the end of `_read`) -/
+abbrev Opts := Dict (List (List Char))
+
+/-- Reader state of `RawConfigParser._read`: the sections created so far (`_sections`, and
+`_defaults` under the name `DEFAULT`) with their options in file order, `cursect` (by name),
+`optname`, `indent_level`, and whether a non-fatal `ParsingError` is pending. -/
 structure RS where
-  sect : Bool := false
-  items : List (Name × List Char) := []
+  secs : Dict Opts := []
+  cur : Option Name := none
+  optname : Option Name := none
+  indent : Nat := 0
   perr : Bool := false
 deriving Repr, BEq, DecidableEq
+
+def defaultSect : Name := ['D', 'E', 'F', 'A', 'U', 'L', 'T']
+def stylesSect : Name := ['s', 't', 'y', 'l', 'e', 's']
 
 /-- index of the last `]` -/
 def lastClose (s : List Char) : Option Nat :=
@@ -86,35 +97,59 @@ def sectionHeader (v : List Char) : Option (List Char) :=
 
 def isDelim (c : Char) : Bool := c = '=' || c = ':'
 
-def hasKey (items : List (Name × List Char)) (n : Name) : Bool := items.any (fun p => p.1 = n)
+/-- `cursect[optname].append(line)` -/
+def appendLine (secs : Dict Opts) (s o : Name) (l : List Char) : Dict Opts :=
+  match dget secs s with
+  | none => secs
+  | some opts =>
+    match dget opts o with
+    | none => secs
+    | some ls => dset secs s (dset opts o (ls ++ [l]))
 
-/-- One iteration of the `for lineno, line in enumerate(fp)` loop of `RawConfigParser._read`. -/
+/-- `cursect is not None and optname` (an empty option name is falsy) -/
+def openOption (st : RS) : Option (Name × Name) :=
+  match st.cur, st.optname with
+  | some s, some o => if o.isEmpty then none else some (s, o)
+  | _, _ => none
+
+/-- One iteration of the `for lineno, line in enumerate(fp)` loop of `RawConfigParser._read`
+(`empty_lines_in_values=True`, no inline comment prefixes, strict). -/
 def step (lower : Bool) (st : RS) (line : List Char) : Res RS :=
   let v := strip line
   match v with
-  | [] => .ok st                                             -- empty line
+  | [] =>                                                    -- empty line: kept as part of the current value
+    match openOption st with
+    | some (s, o) => .ok { st with secs := appendLine st.secs s o [] }
+    | none => .ok st
   | c0 :: _ =>
-    if c0 = '#' || c0 = ';' then .ok st                      -- full-line comment
-    else if (match line with | c :: _ => isSpace c | [] => false) then .unmodelled   -- indented: maybe a continuation
+    if c0 = '#' || c0 = ';' then .ok st                      -- full-line comment (`line.strip().startswith(prefix)`)
     else
-      match sectionHeader v with
-      | some h =>
-        if h = ['s', 't', 'y', 'l', 'e', 's'] then
-          if st.sect then .err .duplicateSection else .ok { st with sect := true }
-        else .unmodelled
+      let curIndent := (line.findIdx? (fun c => !isSpace c)).getD 0      -- NONSPACECRE.search(line).start()
+      match (match openOption st with | some so => if curIndent > st.indent then some so else none | none => none) with
+      | some (s, o) => .ok { st with secs := appendLine st.secs s o v }    -- continuation line
       | none =>
-        if !st.sect then .err .missingSectionHeader
-        else
-          match v.findIdx? isDelim with
-          | none => .ok { st with perr := true }             -- `_handle_error`, keep going
-          | some d =>
-            let raw := rstrip (v.take d)
-            if lower && !(raw.all isAscii) then .unmodelled
-            else
-              let name := if lower then raw.map asciiLower else raw
-              let perr := st.perr || raw.isEmpty
-              if hasKey st.items name then .err .duplicateOption
-              else .ok { st with items := st.items ++ [(name, strip (v.drop (d + 1)))], perr := perr }
+        match sectionHeader v with
+        | some h =>
+          if h = defaultSect then
+            .ok { st with secs := (if (dget st.secs h).isSome then st.secs else dset st.secs h []),
+                          cur := some h, optname := none, indent := curIndent }
+          else if (dget st.secs h).isSome then .err .duplicateSection
+          else .ok { st with secs := dset st.secs h [], cur := some h, optname := none, indent := curIndent }
+        | none =>
+          match st.cur with
+          | none => .err .missingSectionHeader
+          | some s =>
+            match v.findIdx? isDelim with
+            | none => .ok { st with perr := true, indent := curIndent }      -- `_handle_error`, keep going
+            | some d =>
+              let raw := rstrip (v.take d)
+              if lower && !(raw.all isAscii) then .unmodelled
+              else
+                let name := if lower then raw.map asciiLower else raw
+                let opts := (dget st.secs s).getD []
+                if (dget opts name).isSome then .err .duplicateOption
+                else .ok { st with secs := dset st.secs s (dset opts name [strip (v.drop (d + 1))]),
+                                   optname := some name, indent := curIndent, perr := st.perr || raw.isEmpty }
 
 def readLines (lower : Bool) : RS → List (List Char) → Res RS
   | st, [] => .ok st
@@ -123,6 +158,9 @@ def readLines (lower : Bool) : RS → List (List Char) → Res RS
     | .ok st' => readLines lower st' ls
     | .err e => .err e
     | .unmodelled => .unmodelled
+
+/-- `_join_multiline_values`: `'\n'.join(val).rstrip()` for every option -/
+def finishOpts (opts : Opts) : List (Name × List Char) := opts.map (fun p => (p.1, rstrip (joinNL p.2)))
 
 def Res.map {α β : Type} (g : α → β) : Res α → Res β
   | .ok a => .ok (g a)
@@ -155,15 +193,29 @@ def interpItems : List (Name × List Char) → Res (List (Name × List Char))
       | .ok r' => .ok ((n, v') :: r')
       | e => e
 
-/-- `config.read_file(f); config.items("styles")` -/
+/-- `config.read_file(f); config.items("styles")`: the options of `[DEFAULT]` overridden by those of
+`[styles]` (`d = self._defaults.copy(); d.update(self._sections[section])`). -/
 def cfgItems (lower interp : Bool) (text : List Char) : Res (List (Name × List Char)) :=
   match readLines lower {} (splitNL text) with
   | .err e => .err e
   | .unmodelled => .unmodelled
   | .ok st =>
     if st.perr then .err .parsing
-    else if !st.sect then .err .noSection
-    else if interp then interpItems st.items else .ok st.items
+    else
+      match dget st.secs stylesSect with
+      | none => .err .noSection
+      | some sopts =>
+        let d := dupdate (finishOpts ((dget st.secs defaultSect).getD [])) (finishOpts sopts)
+        if interp then interpItems d else .ok d
+
+/-- text-mode `open(path, "rt")`: universal newlines (`\r\n` and a lone `\r` become `\n`).
+`prevCR`: the previous character was a `\r` (already translated). -/
+def universalNL : Bool → List Char → List Char
+  | _, [] => []
+  | prevCR, c :: r =>
+    if c = '\r' then '\n' :: universalNL true r
+    else if c = '\n' then (if prevCR then universalNL false r else '\n' :: universalNL false r)
+    else c :: universalNL false r
 
 /-! ## the domain of the config round trip (used by the theorems and, through the driver, by the harness) -/
 
@@ -222,5 +274,11 @@ def fromFileWith (read : List Char → Res (List (Name × List Char))) (defaults
 def fromFile (defaults : Dict σ) (parse : Parse σ) (lower interp : Bool) (text : List Char)
     (inherit : Bool) : FRes (Theme σ) :=
   fromFileWith (cfgItems lower interp) defaults parse text inherit
+
+/-- `Theme.read(path, inherit=…)` (theme.py:56-68): the file is opened in text mode (universal
+newlines; the bytes are assumed to decode to `fileText` — no BOM handling, no `encoding` argument). -/
+def readPath (defaults : Dict σ) (parse : Parse σ) (lower interp : Bool) (fileText : List Char)
+    (inherit : Bool) : FRes (Theme σ) :=
+  fromFile defaults parse lower interp (universalNL false fileText) inherit
 
 end RichModel.Cfg
